@@ -108,7 +108,9 @@ func (e *Engine) operand(st *State, fr *Frame, v ssa.Value) Val {
 }
 
 func (e *Engine) funcID(fn *ssa.Function) Term {
-	return e.ctx.Const("fn_"+sanitize(fn.String()), SInt)
+	c := e.ctx.Const("fn_"+sanitize(fn.String()), SInt)
+	e.ctx.Axiom("nonnil_"+c.S, "(not (= "+c.S+" 0))") // a function constant is never the nil func value
+	return c
 }
 
 func (e *Engine) globalAddr(g *ssa.Global, fr *Frame) Val {
